@@ -171,4 +171,3 @@ func init() {
 		return vx.RunSched(c, sc, sigOf("C05"))
 	}})
 }
-
